@@ -6,6 +6,8 @@ from pyvc import astcheck as A, dtable as D
 from pyvc.base import VC
 
 LEVEL = "other"
+# obligations whose failure is a semantic fact about the tree (not a shape that is no longer recognized): reported as violations on their own
+DEFINITE = ("first_cell_", "row_loop_never_stops_before_the_last_row", "method_option_defaults_to_nothing")
 FLOOR = 60
 EXPLANATION = ("Three layers. (1) Field faults: 'normal return => valid' postconditions of the real constructors InTransaction / OutTransaction / "
                "IntraTransaction.__init__ and of TransactionSet.add_entry (known asset / exchange / holder, zoned timestamp, type allowed in its table, "
